@@ -492,7 +492,24 @@ def main(rep, ws, tier):
                 q = g.add(pos, g.scale(d, g.dot(g.sub(p, pos), d)))
                 if not g.zero(g.dot(g.sub(r, q), d)): return 'the rotated point leaves the plane perpendicular to the axis', None
                 if not ctx.requal(g.dot(g.sub(r, q), g.sub(r, q)), g.dot(g.sub(p, q), g.sub(p, q))): return 'distance to the axis is not preserved', None
-            return None, 'stays in the plane perpendicular to the axis at the same distance (%d case)' % n
+            # a point ON the axis (p = pos + lam*dir, radius identically 0) is a fixed point: the normalisations must take
+            # their zero-length exits; a division by the identically-zero radius is 0/0 for every such input
+            lam = T.arg(91, lt)
+            ctx = P.Ctx(); g = G(ctx, t); g.unit('a2', 3)
+            pos_n = [agg.slot_in('a2', i, t) for i in range(3)]; dir_n = [agg.slot_in('a2', 3 + i, t) for i in range(3)]
+            for i in range(3):
+                ctx.lin[ctx.key(agg.slot_in('a1', i, t))] = P.padd(ctx.reduce(P.patom(ctx.key(pos_n[i]))), P.pmul(P.patom(ctx.key(lam)), ctx.reduce(P.patom(ctx.key(dir_n[i])))))
+            m = 0
+            try:
+                for asg, res in cases(outs, ctx):
+                    m += 1
+                    r = [ctx.rat(x) for x in res]; p = g.vec('a1')
+                    if not all(ctx.requal(r[i], p[i]) for i in range(3)): return 'a point on the axis is moved: %s' % P.show_rat(r[0], ctx)[:120], None
+            except (P.NotPoly, PC.Undecided) as e:
+                if 'zero polynomial' in str(e): return 'for a point on the axis (distance 0) the result is a quotient by the identically-zero radius: 0/0 instead of the point itself', None
+                raise
+            if m == 0: return 'no path for a point on the axis', None
+            return None, 'stays in the plane perpendicular to the axis at the same distance (%d case); a point on the axis is a fixed point' % n
         run('w_rotatePoint', 'R15.vec', rotate_point)
 
         def tri(S):
